@@ -337,3 +337,27 @@ pub fn fam_stale_pairs(b: &Base, out: &mut Vec<CaseSpec>) {
         }
     }
 }
+
+/// the peer falls silent at step j; while the worker retries, duplicate/stale ACKs arrive (one after r timeouts, or a
+/// volley of six at once); the worker must still give up after a bounded number of timeouts (sender role)
+pub fn fam_stale_then_silence(b: &Base, out: &mut Vec<CaseSpec>) {
+    for j in 1..=b.peer_outs {
+        // the burst that stays unanswered is (roughly) burst j-1 for a lock-step client; cover a few
+        for burst in [j.saturating_sub(1), j] {
+            for r in 0..7usize {
+                out.push(with(b, "stalesilence", format!("silent#{j}:burst{burst}+{r}:one"), |s| {
+                    s.peer.silent_from = Some(j);
+                    s.rules.push(Rule::InjectAfterBurst { burst: burst + r, offset: 1000, stray: Stray::AckRel(0), suppress: false, suppress_for: 0 });
+                }));
+            }
+            for d in [0i64, 1] {
+                out.push(with(b, "stalesilence", format!("silent#{j}:burst{burst}:volley-{d}"), |s| {
+                    s.peer.silent_from = Some(j);
+                    for k in 0..7u64 {
+                        s.rules.push(Rule::InjectAfterBurst { burst, offset: 1000 + k * 1000, stray: Stray::AckRel(-d), suppress: false, suppress_for: 0 });
+                    }
+                }));
+            }
+        }
+    }
+}
